@@ -91,7 +91,7 @@ CONFIG = {
 }
 
 CONFIG["C09"] = {
-    "level": "proof", "proof": True, "rtc": True,
+    "level": "other", "proof": True, "rtc": True,
     "explanation": "Contracts on the real _t_and_o_2_positions (1-D and 2-D), FullGrid.get_full_grid_as_array (nested-loop invariants: "
                    "rows below the counter hold (position n div n_b, rotation n mod n_b), frame relative to loop entry), "
                    "get_position_index / get_quaternion_index (all index vectors and the None default) with symbolic n_b, n_o, n_t. "
@@ -133,11 +133,19 @@ CONFIG["C13"] = {
     "assumptions": [],
 }
 CONFIG["C17"] = {
-    "level": "exploration", "proof": False, "rtc": True,
-    "explanation": "Bounded run-time contract, exhaustive over the statement's language: all names of <= 4 tokens from 17 token kinds in "
-                   "every order for both roles (177k names) against an independent reading of the statement, idempotence, and "
-                   "construction of every standard name with N <= 60 / 150.",
-    "assumptions": [],
+    "level": "other", "proof": True, "rtc": True,
+    "explanation": "Proved (all obligations discharged, token lists of symbolic length): _find_a_number and _find_algorithm (loop "
+                   "invariants with ghost counters: None iff no such token, value iff exactly one, ValueError iff two or more / "
+                   "unconvertible), GridNameParser.__init__ for both roles (raises only ValueError; N >= 1; algorithm valid for the role; "
+                   "N = 1 iff zero algorithm; bare number > 1 selects the default; at most one number and one algorithm token), and "
+                   "idempotence of the standard name for every role x algorithm with symbolic N. Bounded only (not proved): the "
+                   "construction clause (factory yields exactly N points) and the exhaustive <= 4-token enumeration against an "
+                   "independent reading of the statement.",
+    "trusted_base": ["string model: uninterpreted sort with isnumeric/int/len predicates evaluated by CPython on the constants of "
+                     "molgri/constants.py (read every run) and ground-instantiated axioms; split('_') = token list; a token's substring is a "
+                     "substring of the name", "ASSUMED, not verified: NameParser._find_dimensions returns None|int or raises ValueError "
+                     "(needs character-level strings); its result is not used by GridNameParser"],
+    "assumptions": ["names carrying a dimension tag are left unspecified by the statement"],
 }
 CONFIG["C19"] = {
     "level": "exploration", "proof": False, "rtc": True,
